@@ -154,6 +154,23 @@ impl SecondaryTransaction {
 
         let rowsets = std::mem::take(&mut self.to_be_committed_rowsets);
 
+        // The rows to delete were located in the snapshot pinned when the statement started. If a
+        // compaction has replaced one of those row-sets since then (it can commit while we wait for
+        // the table lock), a delete vector written for the old row-set would be silently lost:
+        // fail the statement instead of acknowledging a delete that has no effect.
+        if !delete_split_map.is_empty() {
+            let latest = self.version.pin();
+            let live = latest.snapshot.get_rowsets_of(self.table.table_id());
+            for rowset_id in delete_split_map.keys() {
+                if !live.is_some_and(|live| live.contains(rowset_id)) {
+                    return Err(crate::storage::TracedStorageError::not_found(
+                        "rowset",
+                        format!("{rowset_id} (replaced by a concurrent compaction, retry the statement)"),
+                    ));
+                }
+            }
+        }
+
         let mut dvs = vec![];
         for (rowset_id, deletes) in delete_split_map {
             let dv_id = self.table.generate_dv_id();
